@@ -9,82 +9,63 @@ open EPV.Xsd.Spec
 theorem pyDecode_cls {b : B} {s : String} {a : Atom} (h : pyDecode b s = some a) :
     a.cls = classOf b := by
   cases b <;> simp only [pyDecode] at h <;> (repeat' split at h) <;>
-    simp_all [classOf, B.isSpecial] <;> (try (subst h; rfl)) <;> (try (rw [← h]))
+    simp_all [classOf, B.isSpecial] <;> (try (subst h; rfl)) <;> (try (rw [← h])) <;>
+    (try (obtain ⟨c, _, rfl⟩ := h; rfl))
 
-theorem tryProto_cls (isList : Bool) (text : String) (b : B) (acc : List Atom) :
-    ∀ a ∈ (tryProto isList text b acc).1, a ∈ acc ∨ a.cls = classOf b := by
-  unfold tryProto
-  split
-  · -- list
-    unfold tryItems
-    generalize splitWs text = items
-    suffices H : ∀ (st : List Atom × Bool), (∀ a ∈ st.1, a ∈ acc ∨ a.cls = classOf b) →
-        ∀ a ∈ (items.foldl (fun (st : List Atom × Bool) item =>
-          if st.2 then (match pyDecode b item with
-                        | some a => (st.1 ++ [a], true)
-                        | none => (st.1, false))
-          else st) st).1, a ∈ acc ∨ a.cls = classOf b by
-      exact H (acc, true) (fun a ha => Or.inl ha)
-    induction items with
-    | nil => intro st hst; simpa using hst
-    | cons w ws ih =>
-      intro st hst
-      simp only [List.foldl_cons]
-      apply ih
-      split
-      · cases hd : pyDecode b w with
-        | none => simpa using hst
-        | some v =>
-          simp only
-          intro a ha
-          simp only [List.mem_append, List.mem_singleton] at ha
-          rcases ha with ha | rfl
-          · exact hst a ha
-          · exact Or.inr (pyDecode_cls hd)
-      · exact hst
-  · cases hd : pyDecode b text with
-    | none => intro a ha; exact Or.inl (by simpa using ha)
+theorem firstProto_cls : ∀ {bs : List B} {s : String} {a : Atom}, firstProto bs s = some a →
+    ∃ b ∈ bs, a.cls = classOf b
+  | [], _, _, h => by simp [firstProto] at h
+  | b :: bs, s, a, h => by
+    simp only [firstProto] at h
+    cases hd : pyDecode b s with
     | some v =>
-      intro a ha
-      simp only [List.mem_append, List.mem_singleton] at ha
-      rcases ha with ha | rfl
-      · exact Or.inl ha
-      · exact Or.inr (pyDecode_cls hd)
+      rw [hd] at h; cases h
+      exact ⟨b, List.mem_cons_self, pyDecode_cls hd⟩
+    | none =>
+      rw [hd] at h
+      obtain ⟨b', hb', hc⟩ := firstProto_cls h
+      exact ⟨b', List.mem_cons_of_mem _ hb', hc⟩
 
-theorem atomicLoop_cls (isList : Bool) (text : String) (bs : List B) :
-    ∀ (acc : List Atom) (failed : Bool) (vs : List Atom),
-      atomicLoop isList text bs acc failed = .ok vs →
-      ∀ a ∈ vs, a ∈ acc ∨ ∃ b ∈ bs, a.cls = classOf b := by
-  induction bs with
-  | nil => intro acc failed vs h; simp only [atomicLoop] at h; split at h <;> cases h
-  | cons b bs ih =>
-    intro acc failed vs h a ha
-    simp only [atomicLoop] at h
-    have hp := tryProto_cls isList text b acc
-    rcases hT : tryProto isList text b acc with ⟨acc', ok⟩
-    rw [hT] at h hp
-    cases ok with
-    | true =>
-      simp only at h
-      cases h
-      rcases hp a ha with h1 | h1
-      · exact Or.inl h1
-      · exact Or.inr ⟨b, List.mem_cons_self, h1⟩
-    | false =>
-      simp only at h
-      rcases ih acc' true vs h a ha with h1 | ⟨b', hb', h1⟩
-      · rcases hp a h1 with h2 | h2
-        · exact Or.inl h2
-        · exact Or.inr ⟨b, List.mem_cons_self, h2⟩
-      · exact Or.inr ⟨b', List.mem_cons_of_mem _ hb', h1⟩
+theorem decodeAll_cls : ∀ {bs : List B} {items : List String} {vs : List Atom},
+    decodeAll bs items = some vs → ∀ a ∈ vs, ∃ b ∈ bs, a.cls = classOf b
+  | _, [], vs, h => by simp [decodeAll] at h; subst h; intro a ha; cases ha
+  | bs, w :: ws, vs, h => by
+    simp only [decodeAll] at h
+    cases hw : firstProto bs w with
+    | none => rw [hw] at h; simp at h
+    | some v =>
+      cases hr : decodeAll bs ws with
+      | none => rw [hw, hr] at h; simp at h
+      | some r =>
+        rw [hw, hr] at h
+        simp only [Option.some.injEq] at h
+        subst h
+        intro a ha
+        cases ha with
+        | head => exact firstProto_cls hw
+        | tail _ ha => exact decodeAll_cls hr a ha
 
 /-- every atom of a decoded sequence is an instance of the class of one of the prototypes -/
 theorem atomicSequence_cls {t : SType} {text : String} {vs : List Atom}
     (h : atomicSequence t text = .ok vs) : ∀ a ∈ vs, ∃ b ∈ t.protos, a.cls = classOf b := by
-  intro a ha
-  rcases atomicLoop_cls _ _ _ _ _ _ h a ha with h1 | h1
-  · cases h1
-  · exact h1
+  unfold atomicSequence atomicLoop at h
+  generalize (if t.isList = true then splitWs text else [text]) = items at h
+  cases hp : t.protos with
+  | nil =>
+    rw [hp] at h
+    simp only at h
+    cases hie : items.isEmpty with
+    | true => simp [hie] at h; subst h; intro a ha; cases ha
+    | false => simp [hie] at h
+  | cons b bs =>
+    rw [hp] at h
+    simp only at h
+    cases hd : decodeAll (b :: bs) items with
+    | none => rw [hd] at h; cases h
+    | some ws =>
+      rw [hd] at h
+      cases h
+      exact decodeAll_cls hd
 
 /-- the builtin at the bottom of a chain of restrictions (`none` for lists and unions) -/
 def atomicBase? : SType → Option B
